@@ -94,7 +94,29 @@ func recMain(argv []string) {
 		for j := 0; j < L; j++ {
 			chain = append(chain, chosen[r.Intn(len(chosen))])
 		}
-		if r.Intn(3) == 0 { // an acyclic chain: each callable code once
+		if i%5 == 1 {
+			// two closures of one definition: the second is entered while the first is active,
+			// possibly with another function (and its built-in callback frames) in between
+			chain = nil
+			if r.Intn(2) == 0 {
+				chain = append(chain, pool[r.Intn(4)])
+			}
+			first, second := pool[4], pool[5]
+			if r.Intn(2) == 0 {
+				first, second = second, first
+			}
+			chain = append(chain, first)
+			if r.Intn(2) == 0 {
+				mid := pool[r.Intn(4)]
+				if len(chain) < 2 || chain[0].Name != mid.Name {
+					chain = append(chain, mid)
+				}
+			}
+			chain = append(chain, second)
+			if r.Intn(2) == 0 {
+				chain = append(chain, pool[r.Intn(4)])
+			}
+		} else if r.Intn(3) == 0 { // an acyclic chain: each callable code once
 			seen := map[int]bool{}
 			var ac []callable
 			for _, c := range chain {
@@ -160,7 +182,14 @@ func recMain(argv []string) {
 		for _, rec := range []bool{false, true} {
 			thread := &starlark.Thread{Name: "c09rec"}
 			thread.SetMaxExecutionSteps(1000000)
-			g, err := starlark.ExecFileOptions(&syntax.FileOptions{Recursion: rec}, thread, "g.star", src, nil)
+			g, err := func() (g starlark.StringDict, err error) {
+				defer func() {
+					if r := recover(); r != nil {
+						err = fmt.Errorf("panic: %v", r)
+					}
+				}()
+				return starlark.ExecFileOptions(&syntax.FileOptions{Recursion: rec}, thread, "g.star", src, nil)
+			}()
 			obs := ""
 			if err == nil {
 				obs = "ok:" + g["r1"].String() + "," + g["r2"].String()
